@@ -394,7 +394,12 @@ where
 
 impl Scenario for SincScenario {
     fn name(&self) -> &'static str {
-        "sinc"
+        // (the same scenario is also built against the no_std feature set, see dsim-nostd-signal)
+        if cfg!(feature = "nostd") {
+            "sinc-nostd"
+        } else {
+            "sinc"
+        }
     }
     fn property(&self) -> &'static str {
         "C18"
@@ -442,10 +447,12 @@ impl Scenario for SincScenario {
         ]
     }
     fn runs(&self, tier: &str) -> u64 {
+        // (the no_std twin build of the same scenario runs a third of the budget)
+        let div = if cfg!(feature = "nostd") { 3 } else { 1 };
         if tier == "quick" {
-            150_000
+            150_000 / div
         } else {
-            10_000_000
+            10_000_000 / div
         }
     }
     fn run(&self, src: &mut Source, obs: &mut Observer) -> Result<(), Violation> {
